@@ -50,6 +50,7 @@ ROUNDERS = {"numpy.ceil": "ceil", "math.ceil": "ceil", "numpy.floor": "floor", "
 WRAPPERS = {"int", "each", "ceil", "floor", "rint", "round", "trunc"}
 INT_TYPES = {"int", "numpy.int64", "numpy.int32", "numpy.int_", "numpy.intp", "numpy.integer"}
 RELS = ("le0", "ge0")
+FACTS = RELS + ("nn",)           # what a state can know about a value: sign of the residual there; "is a number, not None"
 
 
 def imports(mod):
@@ -158,12 +159,58 @@ def same(a, b):
         return False
 
 
+def _single_atom(v):
+    """description of the one atom a value consists of (coefficient 1, exponent 1), else None"""
+    try:
+        if not v.d.is_const() or v.d.const_value() != 1 or len(v.n.t) != 1:
+            return None
+        (m, c), = v.n.t.items()
+        if c != 1 or len(m) != 1 or m[0][1] != 1:
+            return None
+        return F.atom_desc(m[0][0])
+    except Exception:  # noqa
+        return None
+
+
+def not_none(v, numbers=()):
+    """a value that cannot be `None` on a path on which nothing is raised: a number, a tuple, a new array, a function object, a string, a root
+    returned by brentq, the result of arithmetic or of a modelled numeric function (None as an operand raises TypeError).  A bare name the
+    function was handed, the result of an unmodelled call, an element or an attribute of something may be None - unless it is one of `numbers`,
+    the symbols that have already been an operand of arithmetic on this path."""
+    if isinstance(v, tuple):
+        return True
+    if is_unknown(v):
+        return bool(getattr(v, "not_none", False))
+    if not rat(v):
+        return False
+    if v.is_const():
+        return True
+    d = _single_atom(v)
+    if d is None:
+        return True                          # a sum / product / quotient
+    if d[0] == "s":
+        return d[1].startswith(("<", "'", '"', "ROOT")) or d[1] in ("True", "False", "pi", "Ellipsis") or d[1] in numbers
+    if d[0] == "fn":
+        return not d[1].startswith(("call:", "idx", "attr:", "bool:", "kw:"))
+    return True                              # exp, sqrt, ...
+
+
+class AfterLoop(Unknown):
+    """the value a name holds after a loop the evaluator does not follow: unknown, but - as a summary of every definition that can reach the
+    loop's exit - known to be a number (never None) when the value before the loop and every assignment inside it are"""
+
+    def __init__(self, why, not_none_=False):
+        super().__init__(why)
+        self.not_none = not_none_
+
+
 # ---------------------------------------------------------------------------------------------------------------------------------
 # "apply f element-wise over the broadcast operands and collect the results into an array" is ONE construct.  An iterable value has a
 # *generic element*: np.broadcast(c, r, p) -> (c, r, p); enumerate(it) -> (<i>, element of it); each(v) (a collected sequence) -> v;
 # zip(range(n), it) -> (<i>, element).  A comprehension, a for loop that appends / stores into `.flat[i]`, `map`, `itertools.starmap`,
 # `np.vectorize(f)(...)`, `np.fromiter` and helper functions that do any of these all produce each(value of f on the generic element).
 INDEX = "<i>"
+ELEMENT = "<element>"
 
 
 def element(v):
@@ -260,6 +307,7 @@ class World:
         self.apps = []             # (callee symbol name, positional values, result, call node)
         self.rootsyms = {}
         self.arm = None
+        self.numbers = set()       # symbols that were an operand of arithmetic on the path being evaluated: they are not None from there on
         self.modenv = {}
         self._match = {}
         ev = Ev(self)
@@ -270,17 +318,27 @@ class World:
                     ev.stmt(st)
         self.modenv = {k: v for k, v in ev.env.items() if not k.startswith("<")}
 
+    def note_numbers(self, node, a, b, ev):
+        """(binop hook) `x + 1`, `2 * a`, `r - 1` raise TypeError when the operand is None: where the path goes on, it was not"""
+        for v in (a, b):
+            nm = symname(v)
+            if nm is not None and nm != "None":
+                self.numbers.add(nm)
+        return NotImplemented
+
     # ---- oracle
     def decide_base(self, test, ev):
         if isinstance(test, ast.Constant) and isinstance(test.value, (bool, int)):
             return bool(test.value)
+        if isinstance(test, ast.Name) and test.id in ev.env and const_value(ev.env[test.id]) is not None:
+            return const_value(ev.env[test.id]) != 0          # a flag whose value is known here (returned by a helper as True / False)
         if isinstance(test, ast.Compare) and len(test.ops) == 1 and isinstance(test.ops[0], (ast.Is, ast.IsNot, ast.Eq, ast.NotEq)):
             # `x is None` for a name whose value is known (a defaulted parameter that was / was not passed)
             a, b = test.left, test.comparators[0]
             for x, y in ((a, b), (b, a)):
                 if isinstance(y, ast.Constant) and y.value is None and isinstance(x, ast.Name) and x.id in ev.env:
                     v = ev.env[x.id]
-                    r = True if symname(v) == "None" else (False if isinstance(v, tuple) or const_value(v) is not None or (symname(v) or "").startswith("<") else None)
+                    r = True if symname(v) == "None" else (False if not_none(v, self.numbers) else None)
                     if r is not None:
                         return r if isinstance(test.ops[0], (ast.Is, ast.Eq)) else not r
         if self.base is None:
@@ -513,6 +571,9 @@ class World:
         one = lambda: need(args()[0][0])      # noqa
         if d in ("numpy.asarray", "numpy.atleast_1d", "numpy.array", "float", "numpy.float64", "numpy.asanyarray", "numpy.ascontiguousarray"):
             return args()[0][0]
+        if d == ELEMENT and nargs == 1:
+            el = element(args()[0][0]) if rat(args()[0][0]) else None          # (Bracket.normalised) the generic element of an iterable
+            return el if el is not None else Unknown("generic element of something that is not the elements of np.broadcast(...)")
         if d == "numpy.copyto" and nargs == 2 and not node.keywords:
             dst, src_ = args()[0]
             if is_buffer(dst) and rat(src_) and element(src_) is not None and rat(element(src_)):
@@ -679,6 +740,12 @@ class World:
         return Unknown("table key is not known by value")
 
 
+def _as_load(t):
+    n = copy.copy(t)
+    n.ctx = ast.Load()
+    return n
+
+
 def _power(a, b):
     if b.is_const() and b.const_value() == Fraction(1, 2):
         return F.sqrt(a)
@@ -717,7 +784,7 @@ PASTED = _pasted()
 
 class Ev(AutoEvaluator):
     def __init__(self, W, env=None, fnode=None, depth=0):
-        super().__init__(None, env=env, cond=W.cond, src=W.ctx.src, subscript=W.subscript)
+        super().__init__(None, env=env, cond=W.cond, src=W.ctx.src, subscript=W.subscript, binop=W.note_numbers)
         self.W = W
         self.fnode = fnode
         self.depth = depth
@@ -919,7 +986,72 @@ class Ev(AutoEvaluator):
                 pass
         if isinstance(st, (ast.For, ast.While)) or (isinstance(st, ast.If) and not self.W.enumerating and self.W.decide_base(st.test, self) is None):
             self._not_followed(st)
+        if isinstance(st, (ast.For, ast.While)):
+            before = dict(self.env)
+            super().stmt(st)
+            for nm in self._numbers_after(st, before):
+                if is_unknown(self.env.get(nm)):
+                    self.env[nm] = AfterLoop(self.env[nm].why, True)
+            return None
         return super().stmt(st)
+
+    def _numbers_after(self, loop, before):
+        """summary of a loop that is not executed: the names that cannot hold None where it is left.  A name qualifies when its value before the
+        loop does and every assignment to it inside the loop (evaluated on placeholders for the names the loop changes) gives such a value; the
+        largest set of names with that property is found by iteration."""
+        carried = sorted(_assigned_names(loop))
+        W = self.W
+        good = {nm for nm in carried if nm in before and not_none(before[nm], W.numbers)}
+        sites = []            # (target node, value node | None)
+        for x in walk_no_nested(loop):
+            if isinstance(x, ast.Assign):
+                sites += [(t, x.value) for t in x.targets]
+            elif isinstance(x, ast.AnnAssign) and x.value is not None:
+                sites.append((x.target, x.value))
+            elif isinstance(x, ast.AugAssign):
+                sites.append((x.target, ast.BinOp(left=_as_load(x.target), op=x.op, right=x.value)))
+            elif isinstance(x, ast.NamedExpr):
+                sites.append((x.target, x.value))
+            elif isinstance(x, (ast.For, ast.comprehension)):
+                sites.append((x.target, None))
+            elif isinstance(x, ast.withitem) and x.optional_vars is not None:
+                sites.append((x.optional_vars, None))
+        saved = W.enumerating, len(W.brentq), len(W.apps), list(W.taken), set(W.numbers)
+        W.enumerating = False
+        try:
+            while True:
+                env = dict(before)
+                for nm in carried:
+                    env[nm] = F.sym(f"<number {nm}>" if nm in good else f"maybe-None {nm}")
+                drop = set()
+
+                def one(target, v):
+                    if isinstance(target, ast.Name):
+                        if not not_none(v, saved[4]):
+                            drop.add(target.id)
+                    elif isinstance(target, (ast.Tuple, ast.List)):
+                        if isinstance(v, tuple) and len(v) == len(target.elts) and not any(isinstance(t, ast.Starred) for t in target.elts):
+                            for t, x in zip(target.elts, v):
+                                one(t, x)
+                        else:
+                            drop.update(t.id for t in ast.walk(target) if isinstance(t, ast.Name))
+
+                for target, value in sites:
+                    v = None
+                    if value is not None:
+                        e = Ev(W, env=dict(env), fnode=self.fnode, depth=self.depth)
+                        e.parent = self.parent
+                        v = e.ev(ast.fix_missing_locations(ast.copy_location(value, loop)) if not hasattr(value, "lineno") else value)
+                    one(target, v)
+                if not (drop & good):
+                    return good
+                good -= drop
+        finally:
+            W.enumerating = saved[0]
+            del W.brentq[saved[1]:]
+            del W.apps[saved[2]:]
+            W.taken[:] = saved[3]
+            W.numbers = saved[4]
 
     def _assign(self, target, v, st, aug=False):
         if isinstance(target, (ast.Attribute, ast.Subscript)):
@@ -973,6 +1105,7 @@ def enumerate_paths(W, runner, limit=96):
         while stack:
             W.prefix = stack.pop()
             W.taken = []
+            W.numbers = set()
             nb, na = len(W.brentq), len(W.apps)
             ev = runner()
             taken = [t for t in W.taken if t is not None]
@@ -1048,6 +1181,8 @@ class State:
         return s
 
     def has(self, v, rel):
+        if rel == "nn" and not_none(v):
+            return True
         return rat(v) and any(r == rel and same(x, v) for x, r in self.facts)
 
     def add(self, v, rel):
@@ -1075,6 +1210,9 @@ class Bracket:
         self.probes = {}         # id(call node) -> (node, result value, first argument value)
         self.ret_frames = []     # returns met while a helper's body is executed: [(state, value)]
         self.desugared = {}
+        self.splits = 0
+        self.rec_nodes = [rec["node"]]      # the brentq call and its copies in normalised statements
+        self.normal = {}                    # id(statement) -> (statements it is executed as | None, names its comprehensions bind, statement)
         self.loop_floor = []     # number of join symbols made before the loops being executed were entered
         self.given = {a.arg for a in ast.walk(W.mod.tree) if isinstance(a, ast.arg)}       # parameter names: values handed in from outside
         self.entry = State(entry_env)
@@ -1195,14 +1333,53 @@ class Bracket:
             s.add(v, r)
         return s
 
+    def decide(self, test, st):
+        """three-valued truth of a test in a state: the rule's oracle, and tests for None decided on what the state knows about the value - a
+        helper that returns `None` in place of a result it did not need to compute is told apart from the other ways it returns"""
+        c = self.W.decide_base(test, self.ev(st))
+        if c is not None:
+            return c
+        if isinstance(test, ast.UnaryOp) and isinstance(test.op, ast.Not):
+            c = self.decide(test.operand, st)
+            return None if c is None else (not c)
+        if isinstance(test, ast.BoolOp):
+            cs = [self.decide(v, st) for v in test.values]
+            if isinstance(test.op, ast.And):
+                return False if any(c is False for c in cs) else (True if all(c is True for c in cs) else None)
+            return True if any(c is True for c in cs) else (False if all(c is False for c in cs) else None)
+        if isinstance(test, ast.Compare) and len(test.ops) == 1 and isinstance(test.ops[0], (ast.Is, ast.IsNot, ast.Eq, ast.NotEq)):
+            a, b = test.left, test.comparators[0]
+            for x, y in ((a, b), (b, a)):
+                if isinstance(y, ast.Constant) and y.value is None and not isinstance(x, ast.Constant):
+                    v = self.value(st, x)
+                    c = True if symname(v) == "None" else (False if st.has(v, "nn") else None)
+                    if c is not None:
+                        return c if isinstance(test.ops[0], (ast.Is, ast.Eq)) else (not c)
+            if not any(isinstance(x, (ast.Call, ast.NamedExpr)) for x in ast.walk(test)):
+                # `a == b` for two names that hold the same value here (a helper that returns (r, r) when no bracket is needed)
+                va, vb = self.value(st, a), self.value(st, b)
+                if same(va, vb) and not opaque_calls(va):
+                    return isinstance(test.ops[0], (ast.Is, ast.Eq))
+        return None
+
     # ---- evaluation of one statement / expression in a state
     def ev(self, st):
         e = Ev(self.W, env=st.env, fnode=self.holder)
         return e
 
+    def noting(self, st, run):
+        """run an evaluation; the symbols it used as operands of arithmetic are numbers in `st` from here on"""
+        saved, self.W.numbers = self.W.numbers, {symname(x) for x, r in st.facts if r == "nn" and symname(x)}
+        try:
+            return run(), [nm for nm in sorted(self.W.numbers)]
+        finally:
+            self.W.numbers = saved
+
     def value(self, st, node):
         na = len(self.W.apps)
-        v = self.ev(st).ev(node)
+        v, noted = self.noting(st, lambda: self.ev(st).ev(node))
+        for nm in noted:
+            st.add(F.sym(nm), "nn")
         for name, pos, res, cn in self.W.apps[na:]:
             if name == self.rec["fname"] and cn is not None and pos:
                 self.probes[id(cn)] = (cn, res, pos[0])
@@ -1231,11 +1408,11 @@ class Bracket:
                 self.fresh += 1
                 phi = F.sym(f"{nm}@J{self.fresh}")
                 out.env[nm] = phi
-                for rel in RELS:
+                for rel in FACTS:
                     have = [s.has(s.env[nm], rel) for s in states]
                     if all(have):
                         out.facts.append((phi, rel))
-                    elif any(have):
+                    elif any(have) and rel in RELS:
                         for s, h in zip(states, have):
                             if not h:
                                 self.culprits.setdefault(nm, set()).update(s.defs.get(nm, ()))
@@ -1254,15 +1431,29 @@ class Bracket:
         return bool(body) and isinstance(body[-1], (ast.Break, ast.Return, ast.Raise)) and not any(isinstance(s, (ast.If, ast.While, ast.For)) for s in body)
 
     def block(self, stmts, st):
-        for s in stmts:
+        for k, s in enumerate(stmts):
             if st is None:
                 return None
             st = self.stmt(s, st)
+            if isinstance(st, list):
+                # the ways a helper returned are kept apart for the rest of this block: what it established goes with what it returned
+                self.splits += 1
+                try:
+                    return self.join([self.block(stmts[k + 1:], x) for x in st])
+                finally:
+                    self.splits -= 1
         return st
+
+    def cases(self, states):
+        """keep the states apart (at most four such splits inside one another), or join them"""
+        states = [x for x in states if x is not None]
+        if len(states) <= 1 or self.splits >= 4:
+            return self.join(states)
+        return states
 
     def stmt(self, s, st):
         if isinstance(s, ast.If):
-            c = self.W.decide_base(s.test, self.ev(st))
+            c = self.decide(s.test, st)
             if c is True:
                 return self.block(s.body, st)
             if c is False:
@@ -1301,59 +1492,183 @@ class Bracket:
                     arms.append(c)
                 self.desugared[id(s)] = (ast.copy_location(ast.If(test=s.value.test, body=[arms[0]], orelse=[arms[1]]), s), s)
             return self.stmt(self.desugared[id(s)][0], st)
-        if not isinstance(s, (ast.FunctionDef, ast.AsyncFunctionDef, ast.ClassDef)) and any(x is self.rec["node"] for x in ast.walk(s)):
+        norm = self.normalised(s, st)
+        if norm is not None:
+            stmts, bound = norm
+            out = self.block(stmts, st)
+            if out is not None and bound:
+                out = out.copy()
+                for nm in bound:            # a comprehension's variables are its own
+                    if nm in st.env:
+                        out.env[nm] = st.env[nm]
+                    else:
+                        out.env.pop(nm, None)
+            return out
+        if not isinstance(s, (ast.FunctionDef, ast.AsyncFunctionDef, ast.ClassDef)) and self.has_call(s):
             self.observe(s, st)
         if isinstance(s, ast.Return):
             if self.ret_frames and s.value is not None:
                 out = self.through_helper(s, st)
-                for rs, v in (out if out is not None else [(st, self.value(st, s.value))]):
-                    self.ret_frames[-1].append((rs, v))
+                if out is not None:
+                    # `return helper(...)`: the inner helper's states, seen from here (its local names are not this function's)
+                    out = [(State(st.env, rs.facts, st.defs), v, None) for rs, v, _ in out]
+                for rs, v, rn in (out if out is not None else [(st, self.value(st, s.value), s.value)]):
+                    self.ret_frames[-1].append((rs, v, rn))
             elif self.ret_frames:
-                self.ret_frames[-1].append((st, F.sym("None")))
+                self.ret_frames[-1].append((st, F.sym("None"), None))
             else:
                 self.through_helper(s, st)          # `return helper(...)`: what happens inside is part of this execution
             return None
         out = self.through_helper(s, st)
         if out is not None:
             states = []
-            for rs, v in out:
+            for rs, v, rnode in out:
                 e = self.ev(State(st.env))
-                for t in (s.targets if isinstance(s, ast.Assign) else [s.target] if isinstance(s, ast.AnnAssign) else []):
+                targets = s.targets if isinstance(s, ast.Assign) else [s.target] if isinstance(s, ast.AnnAssign) else []
+                for t in targets:
                     e._assign(t, v, s)
                 ns = State(e.env, rs.facts, st.defs)
                 for nm in _assigned_names(s):
                     ns.defs[nm] = frozenset([s])
+                for t in targets:
+                    self._defs_through_return(t, rnode, rs, ns)
                 states.append(ns)
-            return self.join(states)
+            return self.cases(states)
         e = self.ev(st)
         na = len(self.W.apps)
-        e.stmt(s)
+        _, noted = self.noting(st, lambda: e.stmt(s))
         for name, pos, res, cn in self.W.apps[na:]:
             if name == self.rec["fname"] and cn is not None and pos:
                 self.probes[id(cn)] = (cn, res, pos[0])
         out = State(e.env, st.facts, st.defs)
+        for nm in noted:
+            out.add(F.sym(nm), "nn")
         for nm in _assigned_names(s):
             out.defs[nm] = frozenset([s])
         if isinstance(s, (ast.FunctionDef, ast.AsyncFunctionDef)):
             out.defs[s.name] = frozenset([s])
         return out
 
-    def through_helper(self, s, st):
-        """`x = helper(...)` / `return helper(...)` where the helper is a function of the module (or a local one) with tests or loops of its own:
-        the helper's body is executed abstractly too, so a bracket search that was moved into a helper establishes the same sign facts.
-        -> [(state at a return of the helper, returned value)] or None when the statement is not of that form"""
-        call = s.value if isinstance(s, (ast.Assign, ast.AnnAssign, ast.Return, ast.Expr)) else None
-        if not isinstance(call, ast.Call) or len(self.ret_frames) >= 3:
-            return None
-        e = self.ev(st)
+    def _defs_through_return(self, target, rnode, rs, ns):
+        """`x, y = helper()` with `return u, v` in the helper: the statements that define x are those that define u in the helper (where it has
+        any: a parameter handed through has none), so that a bracket end is reported with the definition that lacks the test"""
+        if isinstance(target, ast.Name) and isinstance(rnode, ast.Name):
+            ds = rs.defs.get(rnode.id)
+            if ds:
+                ns.defs[target.id] = frozenset(ds)
+                if rnode.id in self.culprits:
+                    self.culprits.setdefault(target.id, set()).update(self.culprits[rnode.id])
+        elif isinstance(target, (ast.Tuple, ast.List)) and isinstance(rnode, (ast.Tuple, ast.List)) and len(target.elts) == len(rnode.elts) \
+                and not any(isinstance(x, ast.Starred) for x in list(target.elts) + list(rnode.elts)):
+            for t, r_ in zip(target.elts, rnode.elts):
+                self._defs_through_return(t, r_, rs, ns)
+
+    def has_call(self, node):
+        return any(x is r for x in ast.walk(node) for r in self.rec_nodes)
+
+    def followable(self, call, e):
+        """the function a call goes to when it is one this execution steps into: a function of the module (or a local one) with tests or loops of
+        its own, or one that holds the root-finder call -> (name, (FunctionDef, defining evaluator)) else None"""
         nm = self.W.callee_name(call.func, e)
         f = self.W.function(nm)
         if f is None or nm == self.rec["fname"] or not isinstance(f[0], (ast.FunctionDef, ast.AsyncFunctionDef)) or f[0] is self.holder:
             return None
-        fnode = f[0]
-        if not any(isinstance(x, (ast.If, ast.While, ast.For, ast.Match, ast.IfExp)) for x in walk_no_nested(fnode)) \
-                and not any(x is self.rec["node"] for x in ast.walk(fnode)):
+        if not any(isinstance(x, (ast.If, ast.While, ast.For, ast.Match, ast.IfExp)) for x in walk_no_nested(f[0])) and not self.has_call(f[0]):
             return None
+        return nm, f
+
+    def normalised(self, s, st):
+        """a statement in which a helper that is stepped into is called somewhere inside an expression - as an argument of another call
+        (`solve(*bracket(c, r, p), c, r, p)`), inside the element expression of a comprehension over the broadcast operands - is executed as the
+        statements it abbreviates: each such call becomes the right-hand side of an assignment to a temporary, a comprehension first binds its
+        variables to the generic element.  Sub-expressions that are evaluated conditionally or later (conditional expression, and / or, lambda)
+        are left alone.  -> (statements, names bound by comprehensions) or None when the statement needs no rewriting"""
+        if not isinstance(s, (ast.Assign, ast.AnnAssign, ast.AugAssign, ast.Return, ast.Expr)) or s.value is None:
+            return None
+        if id(s) in self.normal:
+            return self.normal[id(s)][0]
+        e = self.ev(st)
+        pre, bound, n = [], [], [0]
+
+        def temp(value):
+            n[0] += 1
+            nm = f"<t{s.lineno}.{s.col_offset}.{n[0]}>"
+            pre.append(ast.fix_missing_locations(ast.copy_location(ast.Assign(targets=[ast.Name(id=nm, ctx=ast.Store())], value=value), s)))
+            return ast.copy_location(ast.Name(id=nm, ctx=ast.Load()), value)
+
+        def wanted(node):
+            return any(isinstance(x, ast.Call) and self.followable(x, e) is not None for x in walk_no_nested(node)) \
+                or (isinstance(node, ast.Call) and self.followable(node, e) is not None)
+
+        def rebuild(node):
+            changed, kw = False, {}
+            for field, val in ast.iter_fields(node):
+                if isinstance(val, ast.AST):
+                    nv = lower(val)
+                    changed = changed or nv is not val
+                elif isinstance(val, list):
+                    nv = [lower(x) if isinstance(x, ast.AST) else x for x in val]
+                    changed = changed or any(a is not b for a, b in zip(nv, val))
+                else:
+                    nv = val
+                kw[field] = nv
+            if not changed:
+                return node
+            new = ast.copy_location(type(node)(**kw), node)
+            if any(node is r for r in self.rec_nodes):
+                self.rec_nodes.append(new)
+            return new
+
+        def lower(node, top=False):
+            if isinstance(node, (ast.Lambda, ast.IfExp, ast.BoolOp, ast.DictComp, ast.SetComp)):
+                return node
+            if isinstance(node, (ast.ListComp, ast.GeneratorExp)):
+                g = node.generators[0]
+                if len(node.generators) != 1 or g.ifs or g.is_async or not (wanted(node.elt) or self.has_call(node.elt)):
+                    return node
+                it = lower(g.iter)
+                target = copy.deepcopy(g.target)
+                for x in ast.walk(target):
+                    if isinstance(x, ast.Name):
+                        bound.append(x.id)
+                pick = ast.Call(func=ast.Name(id=ELEMENT, ctx=ast.Load()), args=[it], keywords=[])
+                pre.append(ast.fix_missing_locations(ast.copy_location(ast.Assign(targets=[target], value=pick), s)))
+                elt = lower(node.elt)
+                if not isinstance(elt, ast.Name):
+                    elt = temp(elt)
+                gen = ast.comprehension(target=ast.Name(id="<_>", ctx=ast.Store()), iter=it, ifs=[], is_async=0)
+                return ast.fix_missing_locations(ast.copy_location(type(node)(elt=elt, generators=[gen]), node))
+            new = rebuild(node)
+            if isinstance(new, ast.Call) and not top and self.followable(new, e) is not None:
+                return temp(new)
+            return new
+
+        try:
+            value = lower(s.value, top=True)
+        except Unsupported:
+            value = s.value
+        if value is s.value or not pre:
+            self.normal[id(s)] = (None, s)
+            return None
+        last = copy.copy(s)
+        last.value = value
+        self.normal[id(s)] = ((pre + [last], bound), s)
+        return self.normal[id(s)][0]
+
+    def through_helper(self, s, st):
+        """`x = helper(...)` / `return helper(...)` where the helper is a function of the module (or a local one) with tests or loops of its own:
+        the helper's body is executed abstractly too, so a bracket search that was moved into a helper establishes the same sign facts.
+        -> [(state at a return of the helper, returned value, returned expression)] - the helper's summary for these argument values, one entry for
+        every way it returns: the sign facts it established travel with the value it returned - or None when the statement is not of that form"""
+        call = s.value if isinstance(s, (ast.Assign, ast.AnnAssign, ast.Return, ast.Expr)) else None
+        if not isinstance(call, ast.Call) or len(self.ret_frames) >= 3:
+            return None
+        e = self.ev(st)
+        hit = self.followable(call, e)
+        if hit is None:
+            return None
+        nm, f = hit
+        fnode = f[0]
         try:
             pos, kw = e.args(call)
         except Unsupported:
@@ -1373,11 +1688,11 @@ class Bracket:
             self.frames, self.holder = saved
             self.counters -= new
         if end is not None:
-            rets.append((end, F.sym("None")))
+            rets.append((end, F.sym("None"), None))
         return rets
 
     def observe(self, s, st):
-        call = self.rec["node"]
+        call = next(x for x in ast.walk(s) if any(x is r for r in self.rec_nodes))
         e = self.ev(st)
         pos, kw = e.args(call)
         vals = place(pos, kw, BRENTQ_SIG)
@@ -1432,6 +1747,13 @@ class Bracket:
                         ex = head.copy()
                         ex.via_counter = True       # the iterable is used up
                         exits.append(ex)
+                        it = self.value(head, s.iter)
+                        el = element(it) if rat(it) else None
+                        if el is not None:
+                            # a loop over the broadcast operands: the loop variables are the generic element, as in a comprehension
+                            e = self.ev(head)
+                            e._assign(s.target, el, s)
+                            body0 = State(e.env, head.facts, head.defs)
                 end = self.block(s.body, body0)
             finally:
                 self.frames.pop()
@@ -1449,7 +1771,7 @@ class Bracket:
                     lacking = [e for e in back if not e.has(e.env.get(nm), rel)]
                     if not lacking:
                         keep.add((nm, rel))
-                    elif blame:
+                    elif blame and rel in RELS:
                         for e in lacking:
                             self.culprits.setdefault(nm, set()).update(e.defs.get(nm, ()))
                 keep_rel = {k for k in rel_ if all(holds(e, *k) for e in back)}
@@ -1470,15 +1792,16 @@ class Bracket:
             self.loop_floor.pop()
 
     def _loop_facts(self, s, st, carried, fixpoint):
-        entry = {(nm, rel) for nm in carried for rel in RELS if st.has(st.env.get(nm), rel)}
+        entry = {(nm, rel) for nm in carried for rel in FACTS if st.has(st.env.get(nm), rel)}
         # what the loop body alone would maintain: a fact of that set which the entry lacks is lost because of the definitions reaching the loop
         nobs = len(self.observed)
         saved = {k: set(v) for k, v in self.culprits.items()}
-        optimistic, _ = fixpoint({(nm, rel) for nm in carried for rel in RELS}, False)
+        optimistic, _ = fixpoint({(nm, rel) for nm in carried for rel in FACTS}, False)
         del self.observed[nobs:]
         self.culprits = saved
         for nm, rel in optimistic - entry:
-            self.culprits.setdefault(nm, set()).update(st.defs.get(nm, ()))
+            if rel in RELS:
+                self.culprits.setdefault(nm, set()).update(st.defs.get(nm, ()))
         NF, exits = fixpoint(entry, True)
         real = [e for e in exits if not e.via_counter]
         out = self.join(real or exits)
